@@ -91,4 +91,139 @@ def slotsOkFrom (all : List Slot) : List Slot → Nat → Bool
 def WF (S : Schema) (D : List Val) : Bool :=
   S.msgs.all (fun m => slotsOkFrom m.slots m.slots 0) && DefaultsOk S D && D.length == S.msgs.length
 
+
+
+/-! ## what a decoder returns -/
+
+/-- shape of every value the protobuf decoder returns: `conf` except that an explicit `-0.0` on the wire is stored in a
+plain double field (it is dropped again by the next `Marshal`; `canon` is what the API observes) -/
+def confD (S : Schema) : Mode → Val → Bool
+  | .slots (s :: ss), .cons x xs => confD S (.slot s) x && confD S (.slots ss) xs
+  | .slots [], .nil => true
+  | .slots _, _ => false
+  | .elem f, v =>
+    match f.ty with
+    | .msg sub => confD S (.slots (S.slots sub)) v
+    | ty => leafOk ty v
+  | .reps f, .cons e rest => confD S (.elem f) e && confD S (.reps f) rest
+  | .reps _, .nil => true
+  | .reps _, _ => false
+  | .slot (.one f), v =>
+    match f.card with
+    | .opt => leafOk f.ty v
+    | .req => confD S (.elem f) v
+    | .rep => confD S (.reps f) v
+    | .packed => packedOk f.ty v
+  | .slot (.oneof _ alts), .cons (.num k) (.cons p .nil) =>
+    match findAlt alts k with
+    | some a => confD S (.elem a) p
+    | none => false
+  | .slot (.oneof _ _), .nil => true
+  | .slot (.oneof _ _), _ => false
+termination_by m v => (sizeOf v, m.rank)
+decreasing_by all_goals (simp_wf; simp [Mode.rank, Prod.lex_def]; try omega)
+
+/-- embedded (`nullable=false`) messages of message `m` -/
+def reqSubs (ss : List Slot) : List Nat :=
+  ss.filterMap (fun s => match s with
+    | .one f => (match f.card, f.ty with | .req, .msg sub => some sub | _, _ => none)
+    | .oneof _ _ => none)
+
+/-- `r` is a ranking under which every embedded message has a smaller rank than its parent (no `nullable=false` cycle —
+a Go struct cannot contain itself by value) -/
+def reqRankOk (S : Schema) (r : List Nat) : Bool :=
+  (List.range S.msgs.length).all (fun m => (reqSubs (S.slots m)).all (fun sub => sub < S.msgs.length && r.getD sub 0 < r.getD m 0))
+
+/-- embedding depth, computed by iteration -/
+def reqRanks (S : Schema) : List Nat :=
+  iter (fun r => (List.range S.msgs.length).map (fun m => ((reqSubs (S.slots m)).map (fun sub => r.getD sub 0 + 1)).foldl max 0))
+    (S.msgs.length + 1) (S.msgs.map (fun _ => 0))
+
+/-! ## JSON: laws of the text codecs, NaN normalisation, JSON-representable values, reader tables -/
+
+/-- laws of the text-level codecs the JSON theorems rely on (decimal text of naturals) -/
+structure DecLaws (T : Txt) : Prop where
+  undec_dec : ∀ n, T.undec (T.dec n) = some n
+  dec_nosign : ∀ n ds, T.dec n ≠ 45 :: ds
+
+def bytesOk (b : List Nat) : Bool := b.all (· < 256)
+
+/-- all laws: decimal, float text (`encoding/json` ↔ `strconv.ParseFloat`), base64, hex -/
+structure TxtLaws (T : Txt) : Prop extends DecLaws T where
+  fparse_ffmt : ∀ n, n < 2 ^ 64 → isNaN n = false → n ≠ posInf → n ≠ negInf → T.fparse (T.ffmt n) = some n
+  fparse_nan : T.fparse (str "NaN") = some canonNaN
+  fparse_pinf : T.fparse (str "Infinity") = some posInf
+  fparse_ninf : T.fparse (str "-Infinity") = some negInf
+  unb64_b64 : ∀ b, bytesOk b = true → T.unb64 (T.b64 b) = some b
+  unhex_hex : ∀ b, bytesOk b = true → T.unhex (T.hex b) = some b
+  hex_length : ∀ b, (T.hex b).length = 2 * b.length
+  hex_noquote : ∀ b, stripQuotes (T.hex b) = T.hex b
+
+def normLeaf : Ty → Val → Val
+  | .double, .num n => .num (normNaN n)
+  | _, v => v
+
+/-- what a JSON round trip returns: every NaN of a double field becomes `math.NaN()` (the marshaler prints "NaN") -/
+def normV (S : Schema) : Mode → Val → Val
+  | .slots (s :: ss), .cons x xs => .cons (normV S (.slot s) x) (normV S (.slots ss) xs)
+  | .slots _, v => v
+  | .elem f, v =>
+    match f.ty with
+    | .msg sub => normV S (.slots (S.slots sub)) v
+    | ty => normLeaf ty v
+  | .reps f, .cons e rest => .cons (normV S (.elem f) e) (normV S (.reps f) rest)
+  | .reps _, v => v
+  | .slot (.one f), v =>
+    match f.card with
+    | .rep | .packed => normV S (.reps f) v
+    | _ => normV S (.elem f) v
+  | .slot (.oneof _ alts), .cons (.num k) (.cons p .nil) =>
+    match findAlt alts k with
+    | some a => .cons (.num k) (.cons (normV S (.elem a) p) .nil)
+    | none => .cons (.num k) (.cons p .nil)
+  | .slot (.oneof _ _), v => v
+termination_by m v => (sizeOf v, m.rank)
+decreasing_by all_goals (simp_wf; simp [Mode.rank, Prod.lex_def]; try omega)
+
+def jsonKeysOf (S : Schema) (m : Nat) : List String := ((S.msgs[m]?).map (·.jsonKeys)).getD []
+
+/-- the hand-written reader of message `m` has a `case` for the JSON name of `f` -/
+def covered (S : Schema) (m : Nat) (f : Field) : Bool := (jsonKeysOf S m).any (fun s => str s == str f.json)
+
+/-- JSON-representable: every field the marshaler would WRITE for this value has a `case` in the reader of its message
+(for OTLP: the deprecated scope lists are empty, `C08_json_cases_cover`), and bytes/id payloads are bytes. -/
+def jcov (S : Schema) (m : Nat) : Mode → Val → Bool
+  | .slots (s :: ss), .cons x xs => jcov S m (.slot s) x && jcov S m (.slots ss) xs
+  | .slots _, _ => true
+  | .elem f, v =>
+    match f.ty with
+    | .msg sub => jcov S sub (.slots (S.slots sub)) v
+    | .bytes | .id _ => (match v with | .bytes b => bytesOk b | _ => true)
+    | _ => true
+  | .reps f, .cons e rest => jcov S m (.elem f) e && jcov S m (.reps f) rest
+  | .reps _, _ => true
+  | .slot (.one f), v =>
+    jsonOmit f v || (covered S m f &&
+      (match f.card with
+       | .rep | .packed => jcov S m (.reps f) v
+       | _ => jcov S m (.elem f) v))
+  | .slot (.oneof _ alts), .cons (.num k) (.cons p .nil) =>
+    match findAlt alts k with
+    | some a => covered S m a && jcov S m (.elem a) p
+    | none => true
+  | .slot (.oneof _ _), _ => true
+termination_by md v => (sizeOf v, md.rank)
+decreasing_by all_goals (simp_wf; simp [Mode.rank, Prod.lex_def]; try omega)
+
+/-- reader tables are consistent with the schema: a covered field is found by its JSON name at its own slot -/
+def jslotsOkFrom (S : Schema) (m : Nat) (all : List Slot) : List Slot → Nat → Bool
+  | [], _ => true
+  | .one f :: ss, i =>
+    (!covered S m f || findKey all 0 (str f.json) == some ⟨i, f, false⟩) && jslotsOkFrom S m all ss (i + 1)
+  | .oneof _ alts :: ss, i =>
+    alts.all (fun a => !covered S m a || findKey all 0 (str a.json) == some ⟨i, a, true⟩) && jslotsOkFrom S m all ss (i + 1)
+
+def JWF (S : Schema) : Bool :=
+  (List.range S.msgs.length).all (fun m => jslotsOkFrom S m (S.slots m) (S.slots m) 0)
+
 end OtelVerif.C08
